@@ -224,14 +224,87 @@ func c06Known(ec *epCase, f *Failure) *Failure {
 	return f
 }
 
-func checkC06(c Case) *Failure { return c06Oracle(epReplay(c)) }
+func checkC06(c Case) *Failure {
+	if c.Rule == "reloaded-path" {
+		return c06Reloaded(c)
+	}
+	return c06Oracle(epReplay(c))
+}
+
+var c06ReloadPool = []string{`$.a`, `$.a[*] ? (@ > 1)`, `strict $.b`, `$.zz`, `exists($.a)`, `$.a[*] > 1`, `$.b == "x"`, `strict $.zz == 1`, `$.a[0] + 1`, `!($.b starts with "y")`}
+
+var c06Loaders = []string{"scan-string", "scan-bytes", "unmarshal-text", "unmarshal-binary"}
+
+// c06Reloaded: a Path object that has answered all five entry points for path A and is then loaded with
+// path B (Scan / UnmarshalText / UnmarshalBinary) answers them exactly like a freshly parsed B.
+func c06Reloaded(c Case) *Failure {
+	doc := mustDoc(c.Doc, "float64")
+	obj, err, pan := implParse(c.Path)
+	fresh, err2, pan2 := implParse(c.Path2)
+	if err != nil || err2 != nil || pan != "" || pan2 != "" {
+		panic("harness: reload pool path does not parse")
+	}
+	for _, e := range entryNames {
+		implEntry(e, obj, doc, runCfg{})
+	}
+	_ = obj.String()
+	var lerr error
+	switch c.Extra["loader"] {
+	case "scan-string":
+		lerr = obj.Scan(c.Path2)
+	case "scan-bytes":
+		lerr = obj.Scan([]byte(c.Path2))
+	case "unmarshal-text":
+		lerr = obj.UnmarshalText([]byte(c.Path2))
+	case "unmarshal-binary":
+		lerr = obj.UnmarshalBinary([]byte(c.Path2))
+	}
+	if lerr != nil {
+		return &Failure{Sig: "C06/reload-failed/" + c.Extra["loader"], Expected: "loads " + c.Path2, Observed: lerr.Error()}
+	}
+	for _, silent := range []bool{false, true} {
+		for _, e := range entryNames {
+			got, want := implEntry(e, obj, doc, runCfg{silent: silent}), implEntry(e, fresh, doc, runCfg{silent: silent})
+			if got.String() != want.String() {
+				return &Failure{Sig: "C06/reloaded-path-differs-from-fresh/" + e + "/" + c.Extra["loader"], Expected: want.String() + " (fresh " + c.Path2 + ")", Observed: got.String() + " (object that held " + c.Path + " before)"}
+			}
+		}
+	}
+	if obj.String() != fresh.String() || obj.IsPredicate() != fresh.IsPredicate() {
+		return &Failure{Sig: "C06/reloaded-path-differs-from-fresh/string/" + c.Extra["loader"], Expected: fresh.String(), Observed: obj.String()}
+	}
+	return nil
+}
 
 func runC06(r *Run) {
-	r.Rule("every path of the full language with <= N nodes (3 quick, 4 thorough), every construct nested in filters/subscripts, and every chain of <= L steps over an alphabet with one failing (soft and hard) and one succeeding variant of each step kind plus operators over failing/succeeding operands, x both modes x 65 documents (all with <= 2 nodes, datetime/numeric strings, arrays with the offending element at each position) x {float64,json.Number} x {WithTZ} ; all five entry points, verbose and silent, on identical inputs; oracle = relations between the real executions: First = Query[0]/nil with the same error; Query ok => Exists = non-empty; no items => Exists not true; strict: Exists never hides Query's error; Match = sole boolean / NULL / single-boolean-expected; ExistsOrMatch dispatches on IsPredicate; non-trivial = Query yields items or an error")
+	r.Rule("every path of the full language with <= N nodes (3 quick, 4 thorough), every construct nested in filters/subscripts, and every chain of <= L steps over an alphabet with one failing (soft and hard) and one succeeding variant of each step kind plus operators over failing/succeeding operands, x both modes x 65 documents (all with <= 2 nodes, datetime/numeric strings, arrays with the offending element at each position) x {float64,json.Number} x {WithTZ} ; all five entry points, verbose and silent, on identical inputs; oracle = relations between the real executions: First = Query[0]/nil with the same error; Query ok => Exists = non-empty; no items => Exists not true; strict: Exists never hides Query's error; Match = sole boolean / NULL / single-boolean-expected; ExistsOrMatch dispatches on IsPredicate; a Path object re-loaded by Scan/UnmarshalText/UnmarshalBinary after use answers like a freshly parsed one (all ordered pairs of 10 paths x 4 loaders); non-trivial = Query yields items or an error")
 	paths := epPaths(r)
 	docs := epDocs()
 	r.Bound("paths", len(paths))
 	r.Bound("documents", len(docs))
 	epSweep(r, "entry-point-relations", paths, docs, epCfgs(), c06Oracle)
+	kes, kvals := keyvalueWalks()
+	r.Bound("keyvalue_walk_paths", 2*len(kes))
+	epSweep(r, "entry-point-relations", bothModes(kes), makeDocs(kvals), epCfgs()[:2], c06Oracle)
+	// a re-loaded Path object: all ordered pairs of a pool mixing predicate checks and item paths x 4 loaders
+	var rl []Case
+	for _, a := range c06ReloadPool {
+		for _, b := range c06ReloadPool {
+			for _, l := range c06Loaders {
+				for _, d := range []string{`{"a":[1,2,3],"b":"x"}`, `{"a":[],"b":"y"}`} {
+					rl = append(rl, Case{Rule: "reloaded-path", Path: a, Path2: b, Doc: d, Num: "float64", Extra: map[string]string{"loader": l}})
+				}
+			}
+		}
+	}
+	r.Bound("reloaded_path_cases", len(rl))
+	r.ParFor(len(rl), func(i int) {
+		r.evals.Add(1)
+		r.traces.Add(20)
+		r.transitions.Add(20)
+		if f := c06Reloaded(rl[i]); f != nil {
+			r.Fail(rl[i], f)
+		}
+	})
 	r.states.Add(int64(len(r.outcomes)))
 }
